@@ -341,13 +341,13 @@ func (p *Plan) label() string {
 // ---- building a simulation from a plan ----
 
 type env struct {
-	sim     *sched.Sim
-	plan    *Plan
-	out     *Outcome
-	addr    string
-	clients []Client
-	mu      sync.Mutex
-	invLog  []invEvent // OnInvalidations callback log
+	sim      *sched.Sim
+	plan     *Plan
+	out      *Outcome
+	addr     string
+	clients  []Client
+	mu       sync.Mutex
+	invLog   []invEvent // OnInvalidations callback log
 	delayLog []delayEvent
 }
 
